@@ -18,6 +18,7 @@ from __future__ import annotations
 
 import hashlib
 import importlib
+import signal
 import json
 import multiprocessing as mp
 import os
@@ -85,6 +86,10 @@ def known_or_raise(pid, v: Violation):
 
 
 # ------------------------------------------------------------------ shard worker
+class CaseTimeout(BaseException):
+    """(BaseException: the checks' own 'except Exception' clauses around the code under test must not swallow it)"""
+
+
 class ShardState:
     def __init__(self, mod, findings):
         self.mod = mod
@@ -99,11 +104,30 @@ class ShardState:
         self.last_violation = None  # (case, Violation)
         self.harness_error = None
 
+    def _check_limited(self, case):
+        """mod.check(case) under a generous wall-clock limit: a case that does not finish (possible only with a changed tree that makes
+        some structure grow without bound) is counted as inconclusive - never as a violation, never as a pass."""
+        limit = float(os.environ.get("VF_CASE_LIMIT", getattr(self.mod, "CASE_TIME_LIMIT", 45)))
+        if getattr(self.mod, "OWN_TIME_LIMIT", False) or limit <= 0 or not hasattr(signal, "SIGALRM"):
+            return self.mod.check(case) or []
+
+        def _alarm(*_a):
+            raise CaseTimeout()
+        prev = signal.signal(signal.SIGALRM, _alarm)
+        signal.setitimer(signal.ITIMER_REAL, limit)
+        try:
+            return self.mod.check(case) or []
+        except CaseTimeout:
+            return ["case-timeout-inconclusive"]
+        finally:
+            signal.setitimer(signal.ITIMER_REAL, 0)
+            signal.signal(signal.SIGALRM, prev)
+
     def run_case(self, case):
         """returns None or Violation (unlisted)."""
         self.evaluations += 1
         try:
-            labels = self.mod.check(case) or []
+            labels = self._check_limited(case)
         except Violation as v:
             e = match_finding(self.findings, v)
             if e is not None:
@@ -387,6 +411,7 @@ def run_property(modname, tier, seed, replay=None):
         "shards": nshards,
         "generated_budget": budget,
         "known_findings_hit": dict(known),
+        "inconclusive_cases_time_limit": labels.get("case-timeout-inconclusive", 0),
         "exhaustive": bool(getattr(mod, "ENUM_EXHAUSTIVE", False)) and violation is None,
     }
     coverage.update(extra_cov)
@@ -401,6 +426,9 @@ def run_property(modname, tier, seed, replay=None):
           f"wall={wall:.1f}s")
     top = ", ".join(f"{k}={v}" for k, v in sorted(labels.items(), key=lambda kv: -kv[1])[:14])
     print(f"[{pid}] labels: {top}")
+    if labels.get("case-timeout-inconclusive"):
+        print(f"[{pid}] INCONCLUSIVE: {labels['case-timeout-inconclusive']} case(s) did not finish within the per-case time limit "
+              f"(counted neither as violations nor as passes)")
 
     if harness_errors:
         print(f"[{pid}] HARNESS ERROR (not a violation):\n" + harness_errors[0], file=sys.stderr)
